@@ -168,11 +168,22 @@ pub fn modify(p: &mut Prepared, r: &mut Rng) {
             }
             5 => {
                 // new data entry (may be refused by the store's own rules: then nothing changes)
-                let k = *r.pick(&["new.bin", "d/new.bin", "fresh/n.txt", "a.txt"]);
+                // among them keys the store must refuse (`..`, `.`, trailing separator, a key that
+                // is an ancestor or a descendant of an existing one)
+                let k = *r.pick(&[
+                    "new.bin", "d/new.bin", "fresh/n.txt", "a.txt", "../../evil.txt", "./a.txt", "a.txt/", "d", "a.txt/under",
+                    "q/r", "/abs.bin", "d//e.bin",
+                ]);
                 let b = vec![r.below(256) as u8, 7, 7];
                 if p.font.data.insert(PathBuf::from(k), b.clone()).is_ok() {
-                    p.shadow.data.insert(k.to_string(), CellS::Loaded(b));
-                    p.preserve.remove(&(false, k.to_string()));
+                    // the store keeps the key in its plain form (components re-joined)
+                    let plain: PathBuf = PathBuf::from(k).components().collect();
+                    let plain = plain.to_string_lossy().to_string();
+                    if plain != k {
+                        p.notes.push(format!("store accepted the key {:?} as {:?}", k, plain));
+                    }
+                    p.shadow.data.insert(plain.clone(), CellS::Loaded(b));
+                    p.preserve.remove(&(false, plain));
                 }
             }
             6 => {
@@ -492,7 +503,7 @@ pub fn main(a: &Args) {
         println!("{}", c.json);
         return;
     }
-    let n: u64 = if a.thorough() { 20000 } else { 600 };
+    let n: u64 = if a.thorough() { 12000 } else { 600 };
     let mut g = String::new();
     let mut j = String::new();
     for i in 0..n {
